@@ -203,6 +203,10 @@ def build_all(jobs=16, clean=False):
     """Full .vo build of the Coq development + extraction + driver. Returns (ok, log)."""
     with BuildLock():
         log = []
+        rc, out, _ = run([sys.executable, os.path.join(ROOT, "tools", "gen_registry.py")])
+        log.append(out)
+        if rc != 0:
+            return False, "\n".join(log)
         if clean:
             run("find . -name '*.vo' -o -name '*.glob' -o -name '*.vok' -o -name '*.vos' -o -name '.*.aux' | xargs rm -f", cwd=COQ)
         rc, out, _ = run("coq_makefile -f _CoqProject -o Makefile.coq", cwd=COQ, timeout=120)
